@@ -193,6 +193,18 @@ def replay_one(ck, path):
 def main():
     ck = Check("C04")
     tier = ck.tier
+    for fn in ([] if os.environ.get("VERIF_REPLAY") else os.listdir(ck.wd)):   # nothing is reused from an earlier run
+        if fn.startswith(("violation-", "trace-")):
+            os.remove(os.path.join(ck.wd, fn))
+    import time as _time
+    _t = [_time.time()]
+    phases = {}
+
+    def lap(name):
+        phases[name] = round(_time.time() - _t[0], 1)
+        _t[0] = _time.time()
+        ck.note("phase_wall_s", phases)
+
     ck.rule = (
         "TLC enumerates (a) every genotype x read set of each shape (read cells over gap + the alleles of each SNV, "
         "P(correct)=7/8; pairs of reads with counts 0..2 for the smallest shape; haplotypes may carry zero-probability "
@@ -237,6 +249,7 @@ def main():
         ck.note("action_coverage_small_instances", cov)
     except tlc.TLCError as e:
         ck.machinery_failure(str(e))
+    lap("tlc_model_checking_mutants_coverage")
     if not mix or not st:
         ck.machinery_failure("no states dumped")
 
@@ -245,7 +258,9 @@ def main():
     mix.sort(key=lambda s: json.dumps(s, sort_keys=True))
     st.sort(key=lambda s: json.dumps([s["P"], s["N"], s["A"], s["G"], s["idx"], s["lo"], s["hi"]]))
     run_replay(ck, mix, "mix", compare_mix, stats, 500, "mixture-state", lambda n: (2 * n) // 3)
+    lap("replay_mixture_jit_py")
     run_replay(ck, st, "struct", compare_struct, stats, 150, "structural-terminal-state", lambda n: n // 2)
+    lap("replay_structural_jit_py")
     ck.evaluations += stats["evals"]
     ck.note("undefined_zero_count_on_zero_probability_read", stats["undefined"])
     for k in ("cache_entries_not_one", "input_mutated", "cache_entry_not_under_rearranged_genotype"):
@@ -353,6 +368,7 @@ def main():
             ck.machinery_failure("%s: expected rejections %s, got %s" % (name, want, got))
     ck.note("corrupted_traces_rejected", len(wanted))
 
+    lap("trace_validation")
     # ---- arbitrary float tensors: the TLC-checked theorems as code-vs-code relations ----
     nf = 200 if tier == "quick" else 4000
     res = pool.map_tasks("impl.c04", [{"op": "float_tensors", "n": nf // 4, "seed": ck.seed * 31 + b} for b in range(4)], mode="jit", warm_first=False)
@@ -372,6 +388,7 @@ def main():
                                  key={"site": SITE["ll"] if nm != "ll_struct" else "assemble.likelihood.log_likelihood_structural_change",
                                       "variant": "float-" + theorem})
     ck.note("float_tensor_instances", nfl)
+    lap("float_relations")
 
     ck.exhaustive = True
     ck.assumptions = [
